@@ -173,7 +173,7 @@ Fixpoint r_expr (m : nsmap) (e : expr) (c : nd) (pos size : N) {struct e} : opti
   | AnyValue (VStr s) => Some (RStr s)
   | AnyValue (VNum n) => Some (RNum n)
   | AttributeValue p l => option_map RAttrs (r_attr m c p l)
-  | HasAttribute p l => option_map RAttrs (r_attr m c p l)
+  | HasAttribute p l => option_map (fun a => RBool (negb (null a))) (r_attr m c p l)     (* boolean(attribute::p:l) *)
   | BooleanOperator OpAnd l r =>
       match r_expr m l c pos size, r_expr m r c pos size with
       | Some a, Some b => Some (RBool (to_bool a && to_bool b)) | _, _ => None end
@@ -248,6 +248,7 @@ Definition x_test (dev : bool) (m : nsmap) (t : node_test) : option rtest :=
       Some (RName (if dev then opt_default [] (ns_get m []) else []) l)      (* deviation 1 *)
   | NameMatchTest (Some p) l => option_map (fun ns => RName ns l) (ns_get m p)
   | AnyNameTest None => Some (RAnyName None)
+  | AnyNameTest (Some []) => None                   (* the parser never produces an empty prefix *)
   | AnyNameTest (Some p) => option_map (fun ns => RAnyName (Some ns)) (ns_get m p)
   | NodeTypeTest KTagNode => Some (if dev then RElementOrRoot else RNode)    (* deviation 3 *)
   | NodeTypeTest KTextNode => Some RText
